@@ -9,7 +9,7 @@ use crate::gen::{self, GenCfg};
 use crate::items::{self, canon_pred, ImplItem};
 use crate::spec::*;
 
-fn bound_allowed(s: &TypeSpec, t: Tr) -> bool {
+pub fn bound_allowed(s: &TypeSpec, t: Tr) -> bool {
     match t {
         Tr::Deref | Tr::DerefMut => false,
         Tr::Debug | Tr::PartialEq | Tr::Hash if s.kind == Kind::Union => false,
@@ -22,7 +22,7 @@ fn bound_allowed(s: &TypeSpec, t: Tr) -> bool {
 
 /// give traits explicit bound modes with arbitrary predicates (nothing is compiled here, so the
 /// predicates need not be satisfiable)
-fn assign_bounds(s: &mut TypeSpec, d: &mut Dna) {
+pub fn assign_bounds(s: &mut TypeSpec, d: &mut Dna) {
     let params: Vec<String> = s.gens.types.iter().map(|t| t.name.clone()).collect();
     let lts: Vec<String> = s.gens.lifetimes.iter().map(|l| l.0.clone()).collect();
     let mut pool: Vec<String> = vec!["u8: Copy".into(), "Vec<u8>: ::core::clone::Clone".into(), "(): Sized".into()];
@@ -33,6 +33,17 @@ fn assign_bounds(s: &mut TypeSpec, d: &mut Dna) {
         pool.push(format!("{p}: 'static"));
         pool.push(format!("{p}: ::core::convert::Into<u8>"));
         pool.push(format!("Option<{p}>: PartialEq<Option<{p}>>"));
+        pool.push(format!("for<'q> &'q {p}: ::core::marker::Sized"));
+        pool.push(format!("[{p}; 2]: ::core::default::Default"));
+        pool.push(format!("<{p} as ::core::iter::IntoIterator>::Item: ::core::marker::Copy"));
+        pool.push(format!("{p}: ::core::ops::Fn(u8) -> u8"));
+    }
+    if lts.len() >= 2 {
+        pool.push(format!("'{}: '{}", lts[0], lts[1]));
+    }
+    if let (Some(l), Some(p)) = (lts.first(), params.first()) {
+        pool.push(format!("{p}: '{l}"));
+        pool.push(format!("&'{l} {p}: ::core::marker::Copy"));
     }
     for l in &lts {
         pool.push(format!("'{l}: 'static"));
@@ -272,4 +283,20 @@ pub fn run(ctx: &Ctx) -> i32 {
         }
     }
     rep.finish()
+}
+
+/// Requests that are only ever expanded in-process (nothing is compiled) may use what the compile lanes cannot:
+/// `#[repr(packed)]` (references to packed fields do not compile, but the generated tokens still must not depend on
+/// anything but the request) and bound predicates that need not be satisfiable.
+pub fn exotic_in_process(s: &mut TypeSpec, d: &mut Dna) -> Vec<&'static str> {
+    let mut classes = Vec::new();
+    if s.kind != Kind::Enum && d.chance(12) {
+        s.repr = Some(d.choose(&["packed", "packed(2)", "C, packed", "packed(1)"]).to_string());
+        classes.push("repr_packed(in-process only)");
+    }
+    if d.chance(25) {
+        assign_bounds(s, d);
+        classes.push("arbitrary_custom_bounds(in-process only)");
+    }
+    classes
 }
